@@ -78,6 +78,15 @@ def gen_cases(tier, seed):
                "scale": scale, "fam": fam}
 
 
+    # data whose components are all negative, from guesses with every factor negative (sign fixing on and off), orders 3 and 4
+    rngn = gen.rng_for(seed, ID, tier, "negated")
+    for i in range(8 if tier == "quick" else 40):
+        N = 3 if i % 2 == 0 else 4
+        Rt = int(rngn.integers(2, 4))
+        shape = [max(int(s), Rt) for s in rngn.integers(3, 6, size=N)]
+        yield {"w": "als", "rep": ["tensor", "sptensor"][(i // 2) % 2], "shape": shape, "Rt": Rt, "R": Rt, "dimorder": [int(x) for x in rngn.permutation(N)],
+               "optdims": None, "init": "near-truth", "store": None, "fixsigns": bool(i % 4 != 3), "printitn": 0, "stoptol": 0.0,
+               "kmax": 3, "gseed": int(rngn.integers(0, 2 ** 31)), "cseed": int(seed) * 49979687 + 700000 + i, "scale": 1.0, "fam": "near-diagonal", "negated": True}
     # sparse data with one long, almost empty mode (fewer stored entries than half its length, some sharing an index of that mode)
     for i, shp in enumerate([[8, 2, 2], [2, 10, 2], [3, 2, 12], [9, 3], [2, 2, 2, 9]] * (1 if tier == "quick" else 6)):
         N = len(shp)
@@ -122,6 +131,10 @@ def run_case(case, ctx):
         lam = np.array([5.0, 3.0, 2.0, 1.5][:Rt])
         Kt = ttb.ktensor([np.eye(s, Rt) for s in shape], lam * scale)
         X = denote(Kt) + scale * float(rng.choice([1e-4, 1e-3, 3e-3])) * rng.standard_normal(shape)
+        if case.get("negated"):
+            # every component of the data is negative: with non-negative weights the sign sits in an odd number of factors
+            Kt = ttb.ktensor([np.eye(s, Rt) for s in shape], -lam * scale)
+            X = -X
     else:
         Kt = ttb.ktensor([rng.standard_normal((s, Rt)) for s in shape], (rng.random(Rt) + 0.5) * scale)
         X = denote(Kt) + 0.1 * scale * rng.standard_normal(shape)
@@ -203,6 +216,11 @@ def run_case(case, ctx):
                 M0.factor_matrices[n_] = np.array([[float(rng.choice([-1.0, 0.4, -2.5]))]])
     if case["init"] == "near-truth":
         M0 = ttb.ktensor([np.eye(s, R) + 0.01 * rng.standard_normal((s, R)) for s in shape])
+        if case.get("negated"):
+            # ... and the guess carries it in every factor (order 3: three negative factors per component, order 4: four before the sweep
+            # turns one around): sign fixing has to flip pairs and must leave the tensor alone
+            M0 = ttb.ktensor([-np.asarray(f) for f in M0.factor_matrices])
+            ctx.feat(negated=True)
     ctx.feat(rep=rep, init=case["init"], N=N, R=R, all_modes=(optd is None), fixsigns=case["fixsigns"], printitn=case["printitn"], stoptol=case["stoptol"],
              fam=fam, scale=("1" if scale == 1.0 else "tiny" if scale < 1e-6 else "small" if scale < 1 else "large"), store=str(store))
     if (store or fam == "long-sparse") and min(np.linalg.matrix_rank(np.moveaxis(Xd, n_, 0).reshape(shape[n_], -1)) for n_ in range(N)) < R:
